@@ -281,6 +281,8 @@ func c20(r *core.Run) {
 	r.Rule("T1", "one transaction: every Set/SetEntry/Delete on a badger.Txn in the middleware is made on the parameter of a closure passed directly to DB.Update, and that closure also reads the resource key before writing it", 10)
 	r.Rule("T2", "a refused write fails the event: in every apply handler the error returned by the Set / SetEntry / Delete that writes the resource itself flows into the return value of the update closure (through phis and result cells, and through a helper's result when the write sits in a helper)", 10)
 	r.Rule("T3", "nothing fails after the commit: once DB.Update has returned without error the handler's changes are in the database, so every return of an apply handler after it yields a nil error (the error of DB.Update itself, or an error made on its non-nil edge, aside): an error there makes the event method panic before it publishes anything, although storage has already changed", 10)
+	r.Rule("V1", "Value serves what get serves now (shared with C16.O1): Resource.Value builds a fresh get request on every call and stores nothing into the resource it was called on - a value remembered in the resource is the value from before the events applied since", 5)
+	c16RequestsOwnTheirMemory(r, "V1")
 	r.Rule("G1", "guards: add rejects len<idx, remove rejects len<=idx, create rejects an existing or defaulted resource, change and remove reject a missing resource without default - each by returning its sentinel from the closure on an edge that does not reach the write", 10)
 	r.Rule("S1", "sibling agreement: the two middleware copies have the same guard -> sentinel sets in each of the five apply handlers", 5)
 	r.Rule("I1", "default stays immutable: the handler's default bytes (served for every resource that is not stored yet) are never a destination: the buffer handed to Item.ValueCopy is nil or freshly made, never (a variable that may hold) the default field, and no element of the default field is stored to", 2)
